@@ -243,6 +243,176 @@ def random_jobs(rng, n, maxside):
     return jobs
 
 
+# ---------------------------------------------------------------- targeted families (cheap, many)
+def plain_job(g, n, tag, steps=1):
+    H, W = len(g), len(g[0])
+    return {"H": H, "W": W, "vals": g, "n": n, "dtype": "float64", "xs": list(range(W)),
+            "ys": list(range(H - 1, -1, -1)), "dims": ["y", "x"], "attrs": {"res": 1}, "idx": -1, "base": [],
+            "steps": steps, "tag": tag}
+
+
+def rot(cells):
+    return [(c, -r) for r, c in cells]
+
+
+def norm(cells):
+    r0 = min(r for r, c in cells)
+    c0 = min(c for r, c in cells)
+    return tuple(sorted((r - r0, c - c0) for r, c in cells))
+
+
+def small_shapes():
+    """2-cell diagonal / anti-diagonal pairs, L, T, plus, 3-cell diagonal chains - all rotations"""
+    base = {"diag2": [(0, 0), (1, 1)], "L3": [(0, 0), (1, 0), (1, 1)], "T4": [(0, 0), (0, 1), (0, 2), (1, 1)],
+            "plus5": [(0, 1), (1, 0), (1, 1), (1, 2), (2, 1)], "diag3": [(0, 0), (1, 1), (2, 2)],
+            "vee3": [(0, 0), (1, 1), (0, 2)]}
+    out = {}
+    for name, cells in base.items():
+        for k in range(4):
+            out.setdefault(norm(cells), name)
+            cells = rot(cells)
+    return sorted((name, cells) for cells, name in out.items())
+
+
+def placement_jobs(rng, sizes):
+    """(a) every placement (border and interior) of every small shape, value 1, on three backgrounds:
+    all 0 / checkerboard of {0,2} / random over {0,2}; both neighbourhoods"""
+    jobs = []
+    for (H, W) in sizes:
+        for name, cells in small_shapes():
+            h = max(r for r, c in cells) + 1
+            w = max(c for r, c in cells) + 1
+            for r0 in range(H - h + 1):
+                for c0 in range(W - w + 1):
+                    for bg in ("other", "checker", "random"):
+                        if bg == "other":
+                            g = [[0] * W for _ in range(H)]
+                        elif bg == "checker":
+                            g = [[2 * ((r + c) % 2) for c in range(W)] for r in range(H)]
+                        else:
+                            g = [[rng.choice([0, 2]) for _ in range(W)] for _ in range(H)]
+                        for r, c in cells:
+                            g[r0 + r][c0 + c] = 1
+                        for n in (4, 8):
+                            jobs.append(plain_job(g, n, "place_%s_%s" % (name, bg)))
+    return jobs
+
+
+def place(cells, margins, fill=None):
+    """cells: {(r, c): value}; margins (top, left, bottom, right); returns a grid (0 elsewhere, or `fill`
+    inside the bounding box of the shape)"""
+    r0 = min(r for r, c in cells)
+    c0 = min(c for r, c in cells)
+    h = max(r for r, c in cells) - r0 + 1
+    w = max(c for r, c in cells) - c0 + 1
+    t, l, b, rr = margins
+    g = [[0] * (w + l + rr) for _ in range(h + t + b)]
+    for r in range(h):
+        for c in range(w):
+            if fill is not None:
+                g[t + r][l + c] = fill
+    for (r, c), v in cells.items():
+        g[t + r - r0][l + c - c0] = v
+    return g
+
+
+def comb_shape(rng):
+    """W/M/E/comb: 3..5 parallel arms of different lengths, 1 or 2 cells apart, meeting in one spine row;
+    variants: full spine (4-connected) or spine cells only under the gaps (arms touch it diagonally)"""
+    k = rng.randint(3, 5)
+    step = rng.choice([2, 2, 3])
+    lens = [rng.randint(1, 4) for _ in range(k)]
+    L = max(lens)
+    cells = {}
+    for a in range(k):
+        for r in range(L - lens[a], L):
+            cells[(r, a * step)] = 1
+    kind = rng.choice(["full", "gaps", "full"])
+    for c in range((k - 1) * step + 1):
+        if kind == "full" or c % step != 0:
+            cells[(L, c)] = 1
+    return cells
+
+
+def hook_shape(rng):
+    """late-meeting arms around one cell q: single-cell or short diagonal tips on some of its corners and a
+    long arm that starts in an earlier row, runs around and reaches q from the opposite side"""
+    cells = {(0, 0): 1}
+    for (dr, dc) in ((-1, -1), (-1, 1)):
+        if rng.random() < 0.85:
+            for j in range(1, rng.randint(1, 2) + 1):
+                cells[(dr * j, dc * j)] = 1
+    far = rng.randint(3, 4)           # column of the vertical part of the hook
+    top = rng.randint(-2, -1)
+    low = rng.randint(1, 2)
+    for r in range(top, low + 1):
+        cells[(r, -far)] = 1
+    for c in range(-far, -1 + 1):
+        cells[(low, c)] = 1
+    for j in range(1, low):           # diagonal from the end of the hook up to q
+        cells[(low - j, -1 + j)] = 1 if low - j != 0 else cells.get((0, 0), 1)
+    if low == 1:
+        pass                          # (1,-1) is q's SW corner
+    if rng.random() < 0.3:
+        cells[(1, 1)] = 1             # a tip on the SE corner as well
+    return cells
+
+
+def tree_shape(rng, H, W):
+    """random thin 8-connected tree: every new cell touches exactly one cell of the shape"""
+    cells = {(rng.randrange(H), rng.randrange(W))}
+    for _ in range(4 * H * W):
+        r, c = rng.choice(sorted(cells))
+        dr, dc = rng.choice([(-1, -1), (-1, 0), (-1, 1), (0, -1), (0, 1), (1, -1), (1, 0), (1, 1)])
+        p = (r + dr, c + dc)
+        if not (0 <= p[0] < H and 0 <= p[1] < W) or p in cells:
+            continue
+        touch = sum(1 for er in (-1, 0, 1) for ec in (-1, 0, 1) if (p[0] + er, p[1] + ec) in cells)
+        if touch == 1 or (touch == 2 and rng.random() < 0.15):
+            cells.add(p)
+    return {p: 1 for p in cells}
+
+
+def multiarm_jobs(rng, n):
+    """(b) late-meeting multi-arm shapes under the 8 symmetries, shifted off every border (margins 0/1),
+    rasters up to 8x10, with and without a second value filling the gaps, both neighbourhoods"""
+    jobs = []
+    i = 0
+    while len(jobs) < n:
+        i += 1
+        kind = ("comb", "hook", "hook", "tree")[i % 4]
+        if kind == "comb":
+            cells = comb_shape(rng)
+        elif kind == "hook":
+            cells = hook_shape(rng)
+        else:
+            cells = tree_shape(rng, rng.randint(4, 7), rng.randint(4, 8))
+        margins = tuple(rng.choice([0, 1, 1]) for _ in range(4))
+        fill = rng.choice([None, None, 2])
+        g = place(cells, margins, fill)
+        g = sym(g, i % 8 if kind != "tree" else rng.randrange(8))
+        if len(g) > 10 or len(g[0]) > 10 or min(len(g), len(g[0])) > 8:
+            continue
+        for nb in (4, 8):
+            jobs.append(plain_job(g, nb, "arms_%s%s" % (kind, "_filled" if fill else "")))
+    return jobs
+
+
+def small_random_jobs(rng, n):
+    """(c) seeded random binary / ternary rasters 4x4 .. 7x7"""
+    jobs = []
+    for i in range(n):
+        H, W = rng.randint(4, 7), rng.randint(4, 7)
+        k = 2 if i % 2 == 0 else 3
+        p = rng.choice([0.35, 0.5, 0.65])
+        if k == 2:
+            g = [[1 if rng.random() < p else 0 for _ in range(W)] for _ in range(H)]
+        else:
+            g = [[rng.choice([0, 1, 1, 2]) for _ in range(W)] for _ in range(H)]
+        jobs.append(plain_job(g, 8 if i % 4 < 2 else 4, "random%d" % k))
+    return jobs
+
+
 # ---------------------------------------------------------------- bookkeeping
 def has_nonrectangle(case):
     """count rule: some label class of the (accepted) result is not a full rectangle"""
